@@ -920,6 +920,17 @@ class Units:
             if m == "binary_search":
                 return D("V", {recv.ibase: 1}, None)
             return None
+        if m in ("max_by_key", "min_by_key", "sort_by_key", "sort_unstable_by_key", "sort_by_cached_key", "is_sorted_by_key") and vals and isinstance(vals[0], Clo):
+            # ordering the elements of one collection by a key compares the keys of different elements with each other
+            key = self.apply(vals[0], [self.item_of(recv) if isinstance(recv, (Iter, Coll)) else None], env, n)
+            rty = str(n.get("recv_aty") or n["recv"].get("ty") or "")
+            per_track = any(x in rty for x in ("TrakBox", "Mp4TrackWriter", "Mp4Track"))
+            if isinstance(key, D) and per_track:
+                if any(b_ == "Tm" and e_ != 0 for b_, e_ in key.u):
+                    self.err("scope", "%s by %s over tracks" % (m, show(key)), "tracks are ordered by a quantity in media ticks (%s), but every track has its own media timescale: ticks of different tracks are not comparable" % show(key), n)
+                else:
+                    self.ok("order-key:" + m, n)
+            return self.item_of(recv) if m in ("max_by_key", "min_by_key") and isinstance(recv, (Iter, Coll)) else None
         if m in ("for_each", "any", "all", "find", "position") and vals and isinstance(vals[0], Clo):
             self.apply(vals[0], [self.item_of(recv)], env, n)
             return self.item_of(recv) if m == "find" else None
